@@ -567,21 +567,32 @@ def install(step_meter=True):
     _mods.update(reverse_dfs=reverse_dfs, tad=tad, conditionalrewards=cr, roberta_generator=rg, manual=mb)
     if step_meter:
         _install_step_meter([tad, reverse_dfs])
+    def wrap(owner, name, wrapper):
+        """Attach a monitor if the hook point still exists; a missing one is recorded (checks that need it end inconclusive)."""
+        orig = getattr(owner, name, None)
+        if orig is None:
+            MON.count("install.missing.%s.%s" % (getattr(owner, "__name__", owner), name))
+            return None
+        w = wrapper(orig)
+        setattr(owner, name, w)
+        return w
+
     # M-REV (both names: tad bound reverse_dfs with `from ... import` before we wrap)
-    reverse_dfs.reverse_transition_list = _wrap_reverse_tl(reverse_dfs.reverse_transition_list)
-    wrapped = _wrap_reverse_dfs(reverse_dfs.reverse_dfs)
-    reverse_dfs.reverse_dfs = wrapped
-    if hasattr(tad, "reverse_dfs"):
+    wrap(reverse_dfs, "reverse_transition_list", _wrap_reverse_tl)
+    wrapped = wrap(reverse_dfs, "reverse_dfs", _wrap_reverse_dfs)
+    if wrapped is not None and hasattr(tad, "reverse_dfs"):
         tad.reverse_dfs = wrapped
     # M-ALIAS / M-PRUNE / M-STEP call counters
-    S, G = tad.Solver, tad.StochasticGame
-    G.solve = _wrap_solve(G.solve)
-    S.solve_reachability = _wrap_solve_reachability(S.solve_reachability)
-    S.prune_reachability = _wrap_prune_reachability(S.prune_reachability)
-    S.prune_stochastich_game = _wrap_prune_game(S.prune_stochastich_game)
-    S.value_iteration_total_rewards = _wrap_vi_total(S.value_iteration_total_rewards)
-    S.value_iteration_reachability = _wrap_vi_reach(S.value_iteration_reachability)
-    cr.run_games = _wrap_run_games(cr.run_games)
+    S, G = getattr(tad, "Solver", None), getattr(tad, "StochasticGame", None)
+    if G is not None:
+        wrap(G, "solve", _wrap_solve)
+    if S is not None:
+        wrap(S, "solve_reachability", _wrap_solve_reachability)
+        wrap(S, "prune_reachability", _wrap_prune_reachability)
+        wrap(S, "prune_stochastich_game", _wrap_prune_game)
+        wrap(S, "value_iteration_total_rewards", _wrap_vi_total)
+        wrap(S, "value_iteration_reachability", _wrap_vi_reach)
+    wrap(cr, "run_games", _wrap_run_games)
     MON.installed = True
     return _mods
 
@@ -619,6 +630,8 @@ def observed_solve(game, prune, limit=None, sg=None):
                                     game["final_states"], prune_states=prune)
         else:
             sg.prune_states = prune
+        reach_calls_before = MON.counters.get("step.vi_reach_calls", 0)
+        total_calls_before = MON.counters.get("step.vi_total_calls", 0)
         with budget(limit) as b:
             try:
                 out.result = sg.solve()
@@ -626,11 +639,15 @@ def observed_solve(game, prune, limit=None, sg=None):
             except ValueError as e:
                 out.msg = str(e)
                 out.exc = "ValueError"
-                out.status = "nosol" if str(e).startswith(NOSOL_PREFIX) else "valueerror"
+                # the 'no solution' error is recognised by its text or, should it be reworded, by where it is raised: during
+                # the reachability phase of a pruned solve (before the pruning step, which is where stray errors come from)
+                early = prune and MON.last_prune is None and MON.counters.get("step.vi_reach_calls", 0) > reach_calls_before \
+                    and MON.counters.get("step.vi_total_calls", 0) == total_calls_before
+                out.status = "nosol" if (str(e).startswith(NOSOL_PREFIX) or ("no solution" in str(e).lower() and early)) else "valueerror"
             except StepBudgetExceeded as e:
                 out.status = "budget"
                 out.exc = "StepBudgetExceeded"
-                out.diag = e.diag
+                out.diag = e.diag if e.diag is not None else {"phase": "other", "function": e.where}
             except Exception as e:
                 out.status = "exception"
                 out.exc = type(e).__name__
